@@ -201,7 +201,7 @@ theorem parseExpr0_safe {st : FState} {Q : Expr → FState → Prop} (hi : Inv E
   apply FSafe.lift
   apply ((exprSpecs_all pf AP EL S hz hwf ef).parseExpr 0 st.p hi (by omega)).mono
   intro e p' ⟨a, b⟩
-  exact hq e { st with p := p' } a b
+  exact hq e { st with p := p' } a b.1
 
 omit hN hwf in
 include hlex in
